@@ -138,6 +138,22 @@ Proof.
   injection H as <-. discriminate.
 Qed.
 
+(* the premises of C02_hit_persists on a non-trivial tail: after the store under k_wmin (slot 2), a measurement store into
+   slot 1, a lookup, a FINAL-layout store under the very same key and a hidden-mode store displace nothing; a measurement
+   store into slot 2 or a clear would (no_displace is then False) *)
+Example C02_example_hit_persists_premises :
+  self_compat k_wmin /\ ComputeSize <> PerformHiddenLayout /\
+  Forall (no_displace k_wmin ComputeSize)
+         [OStore k_wmax ComputeSize (ex_out 2); OGet k_wmax ComputeSize; OStore k_wmin PerformLayout (ex_out 3);
+          OStore k_wmin PerformHiddenLayout (ex_out 4)] /\
+  ~ no_displace k_wmin ComputeSize (OStore k_wmin ComputeSize (ex_out 5)) /\ ~ no_displace k_wmin ComputeSize (@OClear XQ).
+Proof.
+  split; [apply C02_refl_key_XQ; unfold refl_key, k_wmin; simpl; repeat split; intros; try discriminate;
+          injection H as <-; discriminate|].
+  split; [discriminate|]. split; [repeat constructor; vm_compute; discriminate|].
+  split; [intro H; apply H; reflexivity | intro H; exact H].
+Qed.
+
 (* a different known dimension is accepted exactly when it equals the stored size on that axis *)
 Example C02_example_known_equals_size :
   let c := store (@new XQ) k_wmax ComputeSize (ex_out 1) in
